@@ -234,8 +234,17 @@ func VerifLemma_C16D_AddModule() {
 	verifAssert(err == nil, "addModule succeeds on an accepted v1/v1beta1 module")
 	om := orig.ModuleConfigs()[0]
 	verifAssert(len(m.moduleConfigs) == len(roots), "one migrated module per root")
-	for i, r := range roots {
-		mc := m.moduleConfigs[i]
+	for _, r := range roots {
+		// the builder's internal order is not part of the contract (NewBufYAMLFile sorts): find the module by directory
+		var mc bufconfig.ModuleConfig
+		nFound := 0
+		for _, c := range m.moduleConfigs {
+			if vJoin(dest, c.DirPath()) == vJoin(moduleDir, r) {
+				mc = c
+				nFound++
+			}
+		}
+		verifAssert(nFound == 1, "exactly one migrated module for the root's directory")
 		verifAssert(mc.LintConfig().FileVersion() == bufconfig.FileVersionV2, "migrated config is v2")
 		verifAssert(vJoin(dest, mc.DirPath()) == vJoin(moduleDir, r), "migrated module directory, seen from the destination, is moduleDir/root")
 		verifAssert(vStrsEq(mc.RootToExcludes()["."], om.RootToExcludes()[r]) && len(mc.RootToExcludes()) == 1, "excludes of the root carried over")
